@@ -16,6 +16,8 @@ from pymemcache.client.rendezvous import RendezvousHash
 
 PROPERTY = "C11"
 LEVEL = "exploration"
+# parts repeated in a child interpreter started with -O and with warnings turned into errors (vlib/runner.py, MODES)
+MODE_PARTS = {"OW": ['spellings', 'topology-histories', 'rings-side-by-side']}
 RULE = ("placement cases: a node set of 1-8 names (host:port look-alikes such as a:1/a:11, UNIX paths, free text), "
         "a hash (real murmur3 with seed 0 or another seed, or a tie-forcing injected hash), a key corpus (LCG-derived "
         "k<n>, digit-only, long keys + Hypothesis-drawn keys), an add/remove history in which each step is or is not followed by lookups (so remove+add pairs leave the node count unchanged between lookups). For each: (i) get_node == "
